@@ -130,6 +130,7 @@ def run(ctx):
     _x86_high_byte_registers(ctx)
     _x86_opcode_extensions(ctx)
     _x86_factory_widths(ctx)
+    _mips_opcodes(ctx)
     arm_addressing_bits(ctx, "C08.R9")
 
 
@@ -627,6 +628,31 @@ def _x86_factory_widths(ctx):
         ctx.ob("C08.R15", "%s:%s" % (rel, fn.name), "%s builds on a base class of operand size %s" % (fn.name, fn.name[-2:]), got == want[fn.name[-2:]], construct="factory-width:" + fn.name, node=ty[0],
                detail="base %s fixes (W, prefix) = %s" % (base, got))
     ctx.need(n >= 8, "x86 factories with a width suffix: %d found, 9 confirmed by reading" % n)
+
+
+# MIPS32 Architecture for Programmers vol. II, table A.2 (opcode field) and A.3 (SPECIAL function field)
+MIPS_OPCODE = {"lb": 32, "lh": 33, "lwl": 34, "lw": 35, "lbu": 36, "lhu": 37, "lwr": 38, "sb": 40, "sh": 41, "swl": 42, "sw": 43, "swr": 46,
+               "addi": 8, "addiu": 9, "slti": 10, "sltiu": 11, "andi": 12, "ori": 13, "xori": 14, "lui": 15, "beq": 4, "bne": 5, "blez": 6, "bgtz": 7}
+MIPS_FUNCT = {"sll": 0, "srl": 2, "sra": 3, "sllv": 4, "srlv": 6, "srav": 7, "jr": 8, "jalr": 9, "mfhi": 16, "mflo": 18, "mult": 24, "multu": 25, "div": 26, "divu": 27,
+              "add": 32, "addu": 33, "sub": 34, "subu": 35, "and": 36, "or": 37, "xor": 38, "nor": 39, "slt": 42, "sltu": 43}
+
+
+def _mips_opcodes(ctx):
+    ctx.rule("C08.R16", "mips: the opcode / function number written next to a mnemonic in a factory call is the one of the MIPS32 opcode tables (lw 35, sw 43, swr 46, sllv 4, srav 7 ...)", floor=25)
+    rel = "ppci/arch/mips/instructions.py"
+    n = 0
+    for c in ast.walk(ctx.project.module(rel).tree):
+        if not (isinstance(c, ast.Call) and isinstance(c.func, ast.Name) and c.func.id.startswith("make_") and c.args and isinstance(_tc8(c.args[0]), str)):
+            continue
+        mn = _tc8(c.args[0])
+        nums = [_tc8(a) for a in c.args[1:] if isinstance(_tc8(a), int)]
+        if c.func.id == "make_r" and mn in MIPS_FUNCT and len(nums) >= 2:
+            n += 1
+            ctx.ob("C08.R16", rel, "`%s` is SPECIAL (opcode 0) function %d" % (mn, MIPS_FUNCT[mn]), nums[0] == 0 and nums[1] == MIPS_FUNCT[mn], construct="mips-funct:" + mn, node=c, detail="written: %s" % nums[:2])
+        elif c.func.id != "make_r" and mn in MIPS_OPCODE and nums:
+            n += 1
+            ctx.ob("C08.R16", rel, "`%s` has opcode %d" % (mn, MIPS_OPCODE[mn]), nums[0] == MIPS_OPCODE[mn], construct="mips-opcode:" + mn, node=c, detail="written: %d" % nums[0])
+    ctx.need(n >= 25, "mips factory calls with a known mnemonic: %d found" % n)
 
 
 def arm_addressing_bits(ctx, rid):
